@@ -79,7 +79,7 @@ def known_key(rec, names):
     backtrace by the engine) AND, for the used-liquidity assertion, the precondition of a last-hop
     raise: a usable channel into the payee whose htlc_minimum a part of the payment can fall below."""
     # both names are manifestations of one root cause and share one record / key
-    if names == {KNOWN_FEE} or names == {"HtlcMaxAndCapacity_LastHopRaiseNotCharged"}:
+    if names and names <= {KNOWN_FEE, "HtlcMaxAndCapacity_LastHopRaiseNotCharged"}:
         return KNOWN_FEE
     if names != {"Panic"}:
         return None
